@@ -46,6 +46,46 @@ type Lg struct {
 	A uint8  `json:"a"` // emitting contract = 20 bytes {0xa0, .., A}
 	T uint8  `json:"t"` // topic0 = 32 bytes {0x70, .., T}
 	V uint64 `json:"v"` // data = one 32-byte word
+	// optional: the full first data word (decimal, up to 2^256-1; overrides V), a second data word,
+	// and a second topic (decimal value of the 32-byte word)
+	W  string `json:"w,omitempty"`
+	W2 string `json:"w2,omitempty"`
+	T1 string `json:"t1,omitempty"`
+}
+
+// Word parses a decimal string into a 32-byte big-endian word (panics on garbage: scenarios are generated).
+func Word(dec string) [32]byte {
+	var w [32]byte
+	n, ok := new(big.Int).SetString(dec, 10)
+	if !ok || n.Sign() < 0 || n.BitLen() > 256 {
+		panic("bad word " + dec)
+	}
+	n.FillBytes(w[:])
+	return w
+}
+
+// DataWords returns the data words of a plain log.
+func (l *Lg) DataWords() [][32]byte {
+	var w0 [32]byte
+	if l.W != "" {
+		w0 = Word(l.W)
+	} else {
+		new(big.Int).SetUint64(l.V).FillBytes(w0[:])
+	}
+	out := [][32]byte{w0}
+	if l.W2 != "" {
+		out = append(out, Word(l.W2))
+	}
+	return out
+}
+
+// TopicWords returns the topics of a plain log.
+func (l *Lg) TopicWords() [][32]byte {
+	out := [][32]byte{Topic(l.T)}
+	if l.T1 != "" {
+		out = append(out, Word(l.T1))
+	}
+	return out
 }
 
 // Item is one log of a block, in log-index order.
@@ -166,9 +206,15 @@ func (r *Rig) Close() {
 // PackItem turns a scenario item into a log as the given syncer kind sees it.
 func PackItem(kind string, defs [][]byte, it Item) ethfake.LogSpec {
 	if it.Lg != nil {
-		var w [32]byte
-		new(big.Int).SetUint64(it.Lg.V).FillBytes(w[:])
-		return ethfake.LogSpec{Address: LogAddr(it.Lg.A), Topics: []common.Hash{Topic(it.Lg.T)}, Data: w[:], TxIndex: it.Tx}
+		var data []byte
+		for _, w := range it.Lg.DataWords() {
+			data = append(data, w[:]...)
+		}
+		var topics []common.Hash
+		for _, t := range it.Lg.TopicWords() {
+			topics = append(topics, common.Hash(t))
+		}
+		return ethfake.LogSpec{Address: LogAddr(it.Lg.A), Topics: topics, Data: data, TxIndex: it.Tx}
 	}
 	e := it.Ev
 	var contract common.Address
